@@ -81,9 +81,17 @@ def main(argv=None):
         if kind != "ok":
             print(f"ANALYSIS-ERROR property={a.pid}: {payload}")
             return 2
+        from engine.report import load_known, match_known
+
+        known = load_known(a.pid)
+        new = []
         for f in payload.findings:
-            print(f"FINDING property={a.pid} {f.text()}")
-        return 1 if payload.findings else 0
+            if match_known(f, known):
+                print(f"KNOWN-FINDING: property={a.pid} {f.text()}")
+            else:
+                new.append(f)
+                print(f"FINDING property={a.pid} {f.text()}")
+        return 1 if new else 0
 
     rc = run_property(a.pid, rule_fn, mod.EXPLANATION, mod.ASSUMPTIONS, tier=a.tier,
                       replay=a.replay)
